@@ -3,11 +3,15 @@
 1. TLC: state machine of an aggregator object (Construct, Seed, Call over input classes) – the
    implementation-shaped order of checks conforms to the contract table of the statement, no action
    writes an input, the abstract result is a function of (kind, class, seed, stream position) only,
-   rejected calls do not advance the RNG stream; exhaustive over 32 kinds x all classes (single
-   calls) and x all histories of <= 3 calls (+ re-seedings) over the history alphabet.
+   rejected calls do not advance the RNG stream; exhaustive over 33 kinds x all classes (single
+   calls) and x all histories of <= 3 calls (+ re-seedings) over the history alphabet.  The constant
+   parameter vectors (weights / pref_vector / leak) are part of the kind, have entries no binary
+   format represents, and histories present BOTH dtypes to one instance whatever the parameter's
+   dtype (float32 call(s) then float64 and the reverse).
 2. S->C: every exported history is executed on ONE real instance: outcome class, length, dtype,
    finiteness, input bit-identical afterwards, result within the spread of three history-free repeats
-   on fresh instances after the same seed; single calls additionally give homogeneity
+   on fresh instances after the same seed (also where the outcome itself is not demanded: same
+   exception class / same dtype and bits as a fresh instance); single calls additionally give homogeneity
    A(2^e J0) 2^-e = A(J0) for every scale exponent of the class alphabet (statement's range:
    2^-39..2^48 float32, 2^-332..2^331 float64) where the model demands it, with a derived allowance.
 3. C->S: seeded random histories with random kinds / shapes / contents / scales are run, logged and
@@ -95,6 +99,34 @@ def report_scenario_failures(ctx: Ctx, scn: dict, res: dict) -> None:
         ctx.report_drift("AggContract", d)
 
 
+def check_mixed_dtype_coverage(scenarios: list[dict]) -> None:
+    """Every aggregator class that takes a parameter vector must come with exported histories that
+    present float32 AND float64 matrices (admissible ones) to one instance, in both orders, the later
+    call being in the parameter's dtype (so that a vector is demanded and compared with fresh
+    instances) - for a float64 parameter; and at least one class with a float32 parameter."""
+    need = {(agg, order) for agg in lib.PARAM_AGGS for order in ("f32>f64", "f64>f32>f64")}
+    need.add(("any-f32-parameter", "f64>f32"))
+    for s in scenarios:
+        if s["mode"] != "hist" or not s["param"]:
+            continue
+        k = s["kind"]
+        calls = [st for st in s["steps"] if st["op"] == "call"]
+        adm = [st["expect"] == "vector" or st["cross"] for st in calls]
+        dts = [st["c"]["dtype"] for st in calls]
+        for j, st in enumerate(calls):
+            if st["expect"] != "vector" or st["memo"] != "property" or not st["xdt"]:
+                continue
+            before = [dts[q] for q in range(j) if adm[q]]
+            if k["pdt"] == "f64" and "f32" in before:
+                need.discard((k["agg"], "f32>f64"))
+                if "f64" in before[:before.index("f32")]:
+                    need.discard((k["agg"], "f64>f32>f64"))
+            if k["pdt"] == "f32" and "f64" in before:
+                need.discard(("any-f32-parameter", "f64>f32"))
+    if need:
+        raise MachineryError(f"vacuous coverage: no exported mixed-dtype history for {sorted(need)}")
+
+
 def check_homogeneity(ctx: Ctx, singles: list[tuple[dict, dict]]) -> None:
     """singles: (scenario, result) of single-call scenarios.  Groups by (kind, base, dtype) and
     compares every scale exponent with the reference e = 0."""
@@ -177,6 +209,9 @@ def validate_episodes(ctx: Ctx, episodes: list[dict]) -> dict:
         ctx.report_drift("AggContract", f"order of checks: model says {dr['impl']}, code did {dr['seen']}")
     ctx.traces += summ["accepted"] + summ["rejected"]
     ctx.extra["trace_summary"] = summ
+    if len(episodes) >= 100 and not summ.get("memo_after_other_dtype") and not summ["rejected"]:
+        raise MachineryError("vacuous trace validation: no recorded history of a kind with a parameter vector "
+                             "mixed dtypes before a memo comparison")
     return summ
 
 
@@ -185,11 +220,15 @@ def run(ctx: Ctx, replay: str | None) -> None:
     ctx.rule = ("one case = (aggregator kind, history of seedings and calls on input classes); all histories of <= 3 "
                 "calls over the history alphabet and all single calls over the full class alphabet are enumerated by "
                 "TLC and replayed; non-trivial = a rejected class, a non-zero class at a scale exponent != 0 whose "
-                "homogeneity is demanded, or a history of >= 2 calls whose last call returns a vector that is compared "
+                "homogeneity is demanded, or a history of >= 2 calls (both dtypes on one instance, also for kinds with a "
+                "parameter vector, whose entries no binary format represents) whose last call returns a vector that is compared "
                 "with a fresh instance")
     ctx.assumptions += [
         "power-of-two scaling of small integer matrices is exact in float32/float64 within the stated range",
-        "kinds with a tensor parameter are called with inputs of the parameter's dtype",
+        "what a kind with a tensor parameter returns for a matrix of the OTHER dtype is not demanded (today UPGrad, "
+        "DualProj, GradDrop answer in the input's dtype; Constant, AlignedMTL, ConFIG raise RuntimeError) - only that it "
+        "does what a fresh instance does and leaves no trace for later calls; single calls and homogeneity use the "
+        "parameter's dtype",
         "ConFIG is outside the rejection clause for non-2-d / non-finite inputs (DESIGN.md 9); its row check is covered",
         "homogeneity of pinv/eigh based aggregators is only compared where the model decides the rank exactly and "
         "no exactly-zero singular value competes with rounding noise (others counted as rank_ambiguous)",
@@ -224,6 +263,10 @@ def run(ctx: Ctx, replay: str | None) -> None:
     if not scenarios or not cat:
         raise MachineryError("no scenario / catalogue exported by TLC")
     lib.configure(cat, ctx.seed)
+    bad = lib.check_param_table(res.prints.get("PAR", [None])[0], scenarios)
+    if bad:
+        raise MachineryError("parameter vectors of the model and of the binding differ: " + "; ".join(bad))
+    check_mixed_dtype_coverage(scenarios)
     bad = lib.check_catalogue_bounds()
     if bad:
         raise MachineryError("catalogue bounds of the model do not hold: " + "; ".join(bad))
@@ -246,6 +289,9 @@ def run(ctx: Ctx, replay: str | None) -> None:
         ctx.evaluations += r["calls"]
         ctx.traces += 1
         ctx.count("memo_compared", r["memo_checked"])
+        ctx.count("memo_compared_after_call_in_other_dtype", r["memo_xdt"])
+        if r["memo_xdt"] and scn["param"]:
+            ctx.count("memo_mixed_dtype_histories:" + scn["kind"]["agg"])
         cpu = ctx.extra.setdefault("replay_cpu_s_by_agg", {})
         cpu[scn["kind"]["agg"]] = round(cpu.get(scn["kind"]["agg"], 0.0) + r["cpu_s"], 2)
         report_scenario_failures(ctx, scn, r)
@@ -274,6 +320,9 @@ def run(ctx: Ctx, replay: str | None) -> None:
                     and any(st["op"] == "seed" for st in s["steps"]) and s["steps"][-1].get("expect") == "vector"),
              _first(lambda s: s["mode"] == "single" and s["kind"]["agg"] == "Constant"
                     and s["steps"][0]["expect"] == "ValueError" and len(s["steps"][0]["c"]["dims"]) == 2),
+             _first(lambda s: s["mode"] == "hist" and s["kind"]["agg"] == "DualProj" and s["param"]
+                    and s["kind"]["pdt"] == "f64" and [st["c"]["dtype"] for st in s["steps"] if st["op"] == "call"]
+                    == ["f64", "f32", "f64"] and all(st.get("expect") in ("vector", "unspecified") for st in s["steps"])),
              _first(lambda s: s["mode"] == "hist" and s["kind"]["agg"] == "UPGrad"
                     and len({json.dumps(st.get("c")) for st in s["steps"]}) == 3 and s["steps"][-1].get("expect") == "vector")]
     for i in picks:
@@ -283,6 +332,10 @@ def run(ctx: Ctx, replay: str | None) -> None:
                                  "observed": [o["outcome"] for o in results[i]["obs"]]}})
     if not ctx.counters.get("hom_compared") or not ctx.counters.get("memo_compared"):
         raise MachineryError("vacuous replay: no homogeneity / memo comparison was made")
+    for agg in lib.PARAM_AGGS:
+        if not ctx.counters.get("memo_mixed_dtype_histories:" + agg) and not ctx.violations:
+            raise MachineryError(f"vacuous replay: no mixed-dtype history of {agg} with a parameter vector reached a "
+                                 "memo comparison")
 
     n_ep = 400 if ctx.tier == "quick" else 4000
     episodes = pmap(_episode, [(i + 1, ctx.seed) for i in range(n_ep)], chunksize=16)
